@@ -97,6 +97,63 @@ func c09R1R2(p *Prog, r *Report, inv *LenInvariants, rv *Rendezvous) {
 		isRoot[h] = true
 	}
 	resetFns := map[*ssa.Function]bool{}
+	valueRep := map[*ssa.Function]bool{}
+	defer func() {
+		// R8: with a value-carrying table every reader that walks a receiver's entries must look
+		// at the value; one that takes every key for a connection keeps delivering (and reporting)
+		// connections that were deleted
+		if len(valueRep) == 0 {
+			return
+		}
+		for _, fn := range p.LibFuncs() {
+			Instrs(fn, func(in ssa.Instruction) {
+				rg, ok := in.(*ssa.Range)
+				if !ok {
+					return
+				}
+				if _, _, isElem := sourcesElem(rg.X); !isElem {
+					// the whole table ranged over, then its element ranged: rg.X is the range value of the outer loop
+					ex, isEx := rg.X.(*ssa.Extract)
+					if !isEx || ex.Index != 2 {
+						return
+					}
+					nx, isNext := ex.Tuple.(*ssa.Next)
+					if !isNext {
+						return
+					}
+					outer, isRg := nx.Iter.(*ssa.Range)
+					if !isRg {
+						return
+					}
+					if o, f, _, okf := FieldOf(outer.X); !okf || o != brokerT || f != "sources" {
+						return
+					}
+				}
+				usesValue := false
+				for _, ref := range *rg.Referrers() {
+					nx, isNext := ref.(*ssa.Next)
+					if !isNext {
+						continue
+					}
+					for _, r2 := range *nx.Referrers() {
+						if ex, isEx := r2.(*ssa.Extract); isEx && ex.Index == 2 && len(*ex.Referrers()) > 0 {
+							for _, r3 := range *ex.Referrers() {
+								if _, isIf := r3.(*ssa.If); isIf {
+									usesValue = true
+								}
+								if u, isU := r3.(*ssa.UnOp); isU && u.Op == token.NOT {
+									usesValue = true
+								}
+							}
+						}
+					}
+				}
+				r.Fn(FuncName(fn))
+				r.Check(usesValue, "C09.R8", "reader of a receiver's connection entries in "+FuncName(fn)+" looks at the stored value", p.InstrPos(rg), "the value of each entry is tested",
+					"the table keeps deleted connections as entries with the value false, but this loop takes every key for a connected source: a deleted connection keeps delivering secondary triggers (and an unchecked key can index the primaries table) while the state reported to clients says it is gone")
+			})
+		}
+	}()
 	for _, fn := range p.LibFuncs() {
 		var edits []setEdit
 		Instrs(fn, func(in ssa.Instruction) {
@@ -149,6 +206,17 @@ func c09R1R2(p *Prog, r *Report, inv *LenInvariants, rv *Rendezvous) {
 				if e.kind == "insert" {
 					mu := e.in.(*ssa.MapUpdate)
 					cst, isC := mu.Value.(*ssa.Const)
+					if _, computed := mu.Value.(*ssa.Parameter); computed && !isC {
+						// another representation: the table keeps a bool per pair and false means "not
+						// connected".  The pairing and guard rules are written for the key-set form; what
+						// can be said here is whether every reader looks at the value (R8).
+						valueRep[fn] = true
+						r.Unk("C09.R1", name+": representation", p.InstrPos(e.in), "the connection table stores a computed bool per (receiver, source) pair (false = not connected) instead of keeping only the connected pairs as keys: counter pairing and endpoint guards are not decided for this form; readers are checked by C09.R8")
+						for _, cs := range counterStores {
+							usedStores[cs] = true
+						}
+						continue
+					}
 					r.Check(isC && cst.Value != nil && cst.Value.ExactString() == "true", "C09.R1", name+": stored value", p.InstrPos(e.in),
 						"the set element is stored as the constant true", "a connection is stored with a value other than the constant true: membership tests (`_, ok :=` vs value) and the counter disagree")
 				}
@@ -775,7 +843,8 @@ func c09R4(p *Prog, r *Report) {
 	// (c) merge loop: for each receiver index, appends latestPrimaries[key] for keys of that receiver's own set
 	okMerge := false
 	var mergeMsg = "merge loop not recognised"
-	Instrs(dist, func(in ssa.Instruction) {
+	InstrsDeep(dist, 1, func(dd DeepInstr) {
+		in := dd.In
 		ia, ok := in.(*ssa.IndexAddr)
 		if !ok {
 			return
@@ -795,12 +864,17 @@ func c09R4(p *Prog, r *Report) {
 		if rg == nil {
 			return
 		}
-		if _, isParam := rg.X.(*ssa.Parameter); isParam {
-			return // the refresh loop
+		ranged := rg.X
+		if prm, isParam := ranged.(*ssa.Parameter); isParam {
+			if len(dd.Path) == 0 || prm.Parent() == dist {
+				return // the refresh loop
+			}
+			// a merging helper that is handed the set: what the distribution function passes
+			ranged = ArgForParam(dd.Path, ranged)
 		}
 		// the ranged set: result of SourcesForReceiver(idx) or broker.sources[idx]
 		var rxIdx ssa.Value
-		if call, ok := rg.X.(*ssa.Call); ok {
+		if call, ok := ranged.(*ssa.Call); ok {
 			if c := call.Call.StaticCallee(); c != nil && c.Name() == "SourcesForReceiver" {
 				rxIdx = call.Call.Args[1]
 				// the accessor returns the receiver's own set
@@ -819,7 +893,7 @@ func c09R4(p *Prog, r *Report) {
 					return
 				}
 			}
-		} else if rxv, _, ok := sourcesElem(rg.X); ok {
+		} else if rxv, _, ok := sourcesElem(ranged); ok {
 			rxIdx = rxv
 		}
 		if rxIdx == nil {
@@ -839,6 +913,62 @@ func c09R4(p *Prog, r *Report) {
 			mergeMsg = "the merged list is not stored under the receiver whose sources were merged"
 		}
 	})
+	// each receiver's merged list is a list of its own: the slice stored under a receiver is not
+	// built in storage made outside the receiver loop (a buffer reused as buf[:0] makes every
+	// receiver's list a view of the same array, which the last receiver overwrites)
+	{
+		shared := ""
+		nStores := 0
+		Instrs(dist, func(in2 ssa.Instruction) {
+			mu, ok := in2.(*ssa.MapUpdate)
+			if !ok || !InLoop(mu) {
+				return
+			}
+			if _, isSl := mu.Value.Type().Underlying().(*types.Slice); !isSl {
+				return
+			}
+			nStores++
+			seen := map[ssa.Value]bool{}
+			var roots func(v ssa.Value, d int)
+			roots = func(v ssa.Value, d int) {
+				if v == nil || seen[v] || d > 8 || shared != "" {
+					return
+				}
+				seen[v] = true
+				switch x := v.(type) {
+				case *ssa.MakeSlice:
+					if !InLoopWith(x, mu) {
+						shared = p.InstrPos(x)
+					}
+				case *ssa.Slice:
+					roots(x.X, d+1)
+				case *ssa.Phi:
+					for _, e := range x.Edges {
+						roots(e, d+1)
+					}
+				case *ssa.Call:
+					if b, isB := x.Call.Value.(*ssa.Builtin); isB {
+						if b.Name() == "append" {
+							roots(x.Call.Args[0], d+1)
+						}
+						return
+					}
+					if g := x.Call.StaticCallee(); g != nil && isModuleFn(g) {
+						for _, a := range x.Call.Args {
+							if _, isSl := a.Type().Underlying().(*types.Slice); isSl {
+								roots(a, d+1)
+							}
+						}
+					}
+				}
+			}
+			roots(mu.Value, 0)
+		})
+		if nStores > 0 {
+			r.Check(shared == "", "C09.R4", "each receiver's list of secondaries is a slice of its own", p.Pos(dist.Pos()), "built from nil or from storage made inside the receiver loop",
+				"the lists stored for the receivers are built in one buffer made outside the receiver loop (at "+shared+"): they all share its backing array, so after the loop every receiver holds the last receiver's frames")
+		}
+	}
 	r.Check(okMerge, "C09.R4", "secondaries of a receiver = primaries of exactly its own sources", p.Pos(dist.Pos()), "merge ranges over the keys of the receiver's own set, reads the primaries table at those keys and stores under the same receiver", mergeMsg)
 	// (d) fan-out: each processor receives allSecondaries[its own index]
 	okFan := false
